@@ -20,6 +20,7 @@ CONSTANTS RowCounts,      \* the dataset: sequence of row-group sizes
           Derivations,    \* subset of {"slice", "pick", "pickle", "copy", "deepcopy"}
           Reads,          \* subset of {"to_pandas", "iter", "head", "count", "filelike"}
           ColumnSets,     \* selections of columns (sequences), <<>> = all
+          Sources,        \* how the root handle is opened: "path" | "fileobj" (caller's open file) | "bytesio"
           MaxDepth
 
 None == 99
@@ -42,10 +43,11 @@ PySlice(n, i, j, kk) ==
 
 VARIABLES view,     \* positions (1-based, into the dataset) the handle sees, in order
           prog,     \* the program so far (for the replay)
-          pc, outcome
-vars == <<view, prog, pc, outcome>>
+          pc, outcome,
+          src       \* how the root handle was opened
+vars == <<view, prog, pc, outcome, src>>
 
-Init == view = [g \in 1..N0 |-> g] /\ prog = <<>> /\ pc = "derive" /\ outcome = <<>>
+Init == view = [g \in 1..N0 |-> g] /\ prog = <<>> /\ pc = "derive" /\ outcome = <<>> /\ src \in Sources
 
 Apply(v, idxs) == [p \in DOMAIN idxs |-> v[idxs[p]]]
 
@@ -66,6 +68,12 @@ Clone(how) ==       \* pickle round trip / copy / deepcopy: the same view
   /\ prog' = Append(prog, [op |-> how, i |-> 0, j |-> 0, k |-> 0])
   /\ UNCHANGED <<view, pc, outcome>>
 
+Warm ==             \* an earlier full read through the current handle (result discarded): later reads must not depend on it
+  /\ pc = "derive" /\ Len(prog) < MaxDepth /\ "warm" \in Derivations
+  /\ (IF prog = <<>> THEN TRUE ELSE prog[Len(prog)].op # "warm")
+  /\ prog' = Append(prog, [op |-> "warm", i |-> 0, j |-> 0, k |-> 0])
+  /\ UNCHANGED <<view, pc, outcome>>
+
 RECURSIVE Sum(_)
 Sum(s) == IF s = <<>> THEN 0 ELSE Head(s) + Sum(Tail(s))
 RowsOf(v) == Sum([p \in DOMAIN v |-> RowCounts[v[p]]])
@@ -78,10 +86,12 @@ Read(kind, cols, h) ==
   /\ prog' = Append(prog, [op |-> kind, i |-> h, j |-> 0, k |-> 0])
   /\ pc' = "done" /\ UNCHANGED view
 
-Next == \/ \E i \in SliceArgs, j \in SliceArgs, k \in Steps : Slice(i, j, k)
-        \/ \E i \in SliceArgs \ {None} : Pick(i)
-        \/ \E how \in {"pickle", "copy", "deepcopy"} : Clone(how)
-        \/ \E kind \in Reads, cols \in ColumnSets, h \in 0..(Sum(RowCounts) + 1) : Read(kind, cols, h)
+Next == /\ \/ \E i \in SliceArgs, j \in SliceArgs, k \in Steps : Slice(i, j, k)
+           \/ \E i \in SliceArgs \ {None} : Pick(i)
+           \/ \E how \in {"pickle", "copy", "deepcopy"} : Clone(how)
+           \/ Warm
+           \/ \E kind \in Reads, cols \in ColumnSets, h \in 0..(Sum(RowCounts) + 1) : Read(kind, cols, h)
+        /\ UNCHANGED src
 Spec == Init /\ [][Next]_vars
 
 (* CONTRACT sanity: a view never invents row groups and never repeats one *)
